@@ -134,6 +134,7 @@ class Recorder:
         self.violations = []  # dicts: {case, msg, signature}
         self.notes = {}
         self.exhaustive = []
+        self.flaky = []
 
     def case(self, case, nontrivial, classes=(), n=1):
         self.evaluations += n
@@ -174,6 +175,7 @@ class Recorder:
                 self.violations.append(v)
         for k, v in other.notes.items():
             self.notes.setdefault(k, v)
+        self.flaky += getattr(other, "flaky", [])
         self.exhaustive += other.exhaustive
         return self
 
@@ -287,7 +289,9 @@ def _flaky(f, holder, rec, retry):
             except Violation as v:
                 rec.violation(case, v.msg + " [non-deterministic: the same case passes in some runs]", v.signature)
                 return True
-    raise HarnessError(f"hypothesis reported flakiness and the case did not fail again in 6 direct re-runs: {f}")
+    # inconclusive: remembered, and turned into exit 2 by the runner unless a real violation is found elsewhere
+    rec.flaky.append(str(f)[:600])
+    return False
 
 
 def run_given(test, seed, max_examples, last_fail_holder, rec, retry=None):
